@@ -4,22 +4,28 @@ From Coq Require Import ZArith List Lia Bool.
 Import ListNotations.
 Local Open Scope Z_scope.
 
-Inductive layer := Conv (k s p : Z) | TConv (k s p op : Z).
+(* a Block is a residual / attention / upsampling unit known only through what it does to the size (its two branches are
+   convolutions that agree on every size, see stride_block_branches_agree / upsample_block below) *)
+Inductive effect := Same | Half | Double | Other.
+Inductive layer := Conv (k s p : Z) | TConv (k s p op : Z) | Block (e : effect).
 
 Definition out_size (l : layer) (h : Z) : Z :=
   match l with
   | Conv k s p => (h + 2 * p - k) / s + 1
   | TConv k s p op => (h - 1) * s - 2 * p + k + op
+  | Block Half => (h - 1) / 2 + 1
+  | Block Double => 2 * h
+  | Block _ => h
   end.
 Definition through (ls : list layer) (h : Z) : Z := fold_left (fun acc l => out_size l acc) ls h.
 
 (* classification of a layer by what it does to an (even, for halving) size *)
-Inductive effect := Same | Half | Double | Other.
 Definition effect_of (l : layer) : effect :=
   match l with
   | Conv k s p => if (s =? 1) && (k =? 2 * p + 1) then Same else if (s =? 2) && (k =? 2 * p + 1) then Half else Other
   | TConv k s p op => if (s =? 1) && (k =? 2 * p + 1) && (op =? 0) then Same
                       else if (s =? 2) && (k =? 2 * p + 1) && (op =? 1) then Double else Other
+  | Block e => e
   end.
 Fixpoint count_half (ls : list layer) : nat := match ls with [] => O | l :: r => (match effect_of l with Half => 1 | _ => 0 end + count_half r)%nat end.
 Fixpoint count_double (ls : list layer) : nat := match ls with [] => O | l :: r => (match effect_of l with Double => 1 | _ => 0 end + count_double r)%nat end.
@@ -66,17 +72,28 @@ Proof.
   apply Z.eqb_eq in E1, E2, E3. subst. cbn [out_size]. lia.
 Qed.
 
+Lemma half_block h : out_size (Block Half) (2 * h) = h.
+Proof. cbn [out_size]. assert ((2 * h - 1) / 2 = h - 1) by (symmetry; apply Z.div_unique with (r := 1); lia). lia. Qed.
+(* the two branches of a stride-2 residual block (3x3 stride 2 padding 1, and 1x1 stride 2) agree on EVERY size, so the sum is well formed *)
+Theorem stride_block_branches_agree h : out_size (Conv 3 2 1) h = out_size (Conv 1 2 0) h /\ out_size (Conv 3 2 1) h = out_size (Block Half) h.
+Proof. cbn [out_size]. replace (h + 2 * 1 - 3) with (h - 1) by lia. replace (h + 2 * 0 - 1) with (h - 1) by lia. split; reflexivity. Qed.
+(* a 3x3 stride-1 padding-1 convolution keeps the size; followed by PixelShuffle(2) the size doubles: both branches of an upsampling block *)
+Theorem same_conv3 h : out_size (Conv 3 1 1) h = h.
+Proof. apply same_conv. reflexivity. Qed.
+
 (* an encoder made of Same / Half layers maps 2^d * h to h, where d is its number of halving layers *)
 Theorem encoder_shape ls : down_only ls = true -> forall h, through ls (2 ^ Z.of_nat (count_half ls) * h) = h.
 Proof.
   induction ls as [|l r IH]; intros Hd h; [unfold through; cbn [fold_left count_half]; change (Z.of_nat 0) with 0; rewrite Z.pow_0_r; lia|].
   cbn [down_only forallb] in Hd. apply andb_true_iff in Hd. destruct Hd as [Hl Hr]. specialize (IH Hr).
   unfold through in *. cbn [fold_left count_half]. destruct (effect_of l) eqn:El; try discriminate.
-  - cbn [Nat.add]. destruct l as [k s p|k s p op]; [rewrite same_conv by exact El|rewrite same_tconv by exact El]; apply IH.
-  - destruct l as [k s p|k s p op]; [|unfold effect_of in El; destruct ((s =? 1) && (k =? 2 * p + 1) && (op =? 0)); [discriminate|destruct ((s =? 2) && (k =? 2 * p + 1) && (op =? 1)); discriminate]].
-    replace (Z.of_nat (1 + count_half r)) with (Z.of_nat (count_half r) + 1) by lia.
+  - cbn [Nat.add]. destruct l as [k s p|k s p op|e]; [rewrite same_conv by exact El|rewrite same_tconv by exact El|cbn [effect_of] in El; subst e; cbn [out_size]]; apply IH.
+  - replace (Z.of_nat (1 + count_half r)) with (Z.of_nat (count_half r) + 1) by lia.
     rewrite Z.pow_add_r by lia. replace (2 ^ Z.of_nat (count_half r) * 2 ^ 1 * h) with (2 * (2 ^ Z.of_nat (count_half r) * h)) by lia.
-    rewrite half_conv by exact El. apply IH.
+    destruct l as [k s p|k s p op|e].
+    + rewrite half_conv by exact El. apply IH.
+    + unfold effect_of in El; destruct ((s =? 1) && (k =? 2 * p + 1) && (op =? 0)); [discriminate|destruct ((s =? 2) && (k =? 2 * p + 1) && (op =? 1)); discriminate].
+    + cbn [effect_of] in El; subst e. rewrite half_block. apply IH.
 Qed.
 
 (* a decoder made of Same / Double layers maps h to 2^u * h *)
@@ -85,9 +102,13 @@ Proof.
   induction ls as [|l r IH]; intros Hd h; [unfold through; cbn [fold_left count_double]; change (Z.of_nat 0) with 0; rewrite Z.pow_0_r; lia|].
   cbn [up_only forallb] in Hd. apply andb_true_iff in Hd. destruct Hd as [Hl Hr]. specialize (IH Hr).
   unfold through in *. cbn [fold_left count_double]. destruct (effect_of l) eqn:El; try discriminate.
-  - cbn [Nat.add]. destruct l as [k s p|k s p op]; [rewrite same_conv by exact El|rewrite same_tconv by exact El]; apply IH.
-  - destruct l as [k s p|k s p op]; [unfold effect_of in El; destruct ((s =? 1) && (k =? 2 * p + 1)); [discriminate|destruct ((s =? 2) && (k =? 2 * p + 1)); discriminate]|].
-    rewrite double_tconv by exact El. rewrite IH.
+  - cbn [Nat.add]. destruct l as [k s p|k s p op|e]; [rewrite same_conv by exact El|rewrite same_tconv by exact El|cbn [effect_of] in El; subst e; cbn [out_size]]; apply IH.
+  - assert (Hstep : out_size l h = 2 * h).
+    { destruct l as [k s p|k s p op|e].
+      - unfold effect_of in El; destruct ((s =? 1) && (k =? 2 * p + 1)); [discriminate|destruct ((s =? 2) && (k =? 2 * p + 1)); discriminate].
+      - now apply double_tconv.
+      - cbn [effect_of] in El; subst e. reflexivity. }
+    rewrite Hstep, IH.
     replace (Z.of_nat (1 + count_double r)) with (Z.of_nat (count_double r) + 1) by lia. rewrite Z.pow_add_r by lia. lia.
 Qed.
 
